@@ -70,6 +70,8 @@ struct Mock {
     seed: u64,
     /// panic after this many energy calls (used to show a non-terminating loop)
     budget: Option<usize>,
+    /// every proposed exchange is accepted (equal Hamiltonians and betas in the real thing)
+    always: bool,
 }
 
 impl Mock {
@@ -89,6 +91,7 @@ impl Mock {
             swaps,
             seed,
             budget: None,
+            always: false,
         }
     }
     fn push(&self, c: u8) {
@@ -167,7 +170,7 @@ impl GraphWeights for Mock {
     fn relative_weight(&self, h: &Self) -> f64 {
         self.push(b'r');
         if self.slot < h.slot {
-            if decision(self.seed, self.slot, *self.gcount.lock().unwrap()) {
+            if self.always || decision(self.seed, self.slot, *self.gcount.lock().unwrap()) {
                 f64::INFINITY
             } else {
                 0.0
@@ -491,6 +494,7 @@ struct TemperSetup {
     offs: Vec<f64>,
     nscripts: Vec<Vec<usize>>,
     seed: u64,
+    always: bool,
 }
 
 fn build_tc(su: &TemperSetup, budget: Option<usize>) -> (MockTc, Arc<Mutex<Vec<(usize, usize, usize)>>>) {
@@ -500,6 +504,7 @@ fn build_tc(su: &TemperSetup, budget: Option<usize>) -> (MockTc, Arc<Mutex<Vec<(
     for i in 0..su.betas.len() {
         let mut m = Mock::new(i, ns.clone(), su.offs[i], su.seed, swaps.clone());
         m.budget = budget;
+        m.always = su.always;
         tc.add_qmc_stepper(m, su.betas[i]).unwrap();
     }
     (tc, swaps)
@@ -622,6 +627,45 @@ fn run_temper(su: &TemperSetup) {
                     fail(format!("slot {}: stepped at a foreign beta", i));
                 }
             }
+            // ---- independent reference: an identically built container driven in lock step (serial semantics:
+            // every replica one `timestep`, `tempering_step()` after every s-th step, then read the states) ----
+            {
+                let (mut tc2, _) = build_tc(su, None);
+                let mut ref_samples: Vec<Vec<G>> = vec![vec![]; nrep];
+                for k in 1..=su.t {
+                    for (m, beta) in tc2.graph_mut().iter_mut() {
+                        m.timestep(*beta);
+                    }
+                    if k % su.s == 0 {
+                        tc2.tempering_step();
+                    }
+                    if k % su.f == 0 {
+                        for i in 0..nrep {
+                            ref_samples[i].push(tc2.graph_ref()[i].0.g);
+                        }
+                    }
+                }
+                let ref_fin: Vec<G> = tc2.graph_ref().iter().map(|(m, _)| m.g).collect();
+                let got_fin: Vec<G> = tc.graph_ref().iter().map(|(m, _)| m.g).collect();
+                for i in 0..nrep.min(r.len()) {
+                    let got: Vec<G> = r[i].0.iter().map(|s| dec(s)).collect();
+                    if got != ref_samples[i] {
+                        fail(format!("slot {}: sampled {} but the lock-step reference container gives {}", i, show_gs(&got), show_gs(&ref_samples[i])));
+                    }
+                    if su.t > 0 && su.t % su.f == 0 && got.last() != Some(&got_fin[i]) {
+                        fail(format!("slot {}: last sample {:?} is not the graph the slot holds when the driver returns ({:?})", i, got.last(), got_fin[i]));
+                    }
+                }
+                if got_fin != ref_fin {
+                    fail(format!("final arrangement {} but the lock-step reference ends in {}", show_gs(&got_fin), show_gs(&ref_fin)));
+                }
+                if tc.get_total_swaps() != tc2.get_total_swaps() {
+                    fail(format!("total_swaps {} but the lock-step reference counts {}", tc.get_total_swaps(), tc2.get_total_swaps()));
+                }
+                if su.always && nrep >= 2 && tc2.get_total_swaps() as usize != (su.t / su.s) * (nrep - 1) {
+                    fail(format!("reference: {} accepted exchanges, {} expected when every proposal is accepted", tc2.get_total_swaps(), (su.t / su.s) * (nrep - 1)));
+                }
+            }
             let fin: Vec<G> = tc.graph_ref().iter().map(|(m, _)| m.g).collect();
             if fin != arr {
                 fail(format!("final arrangement {} documented {}", show_gs(&fin), show_gs(&arr)));
@@ -644,6 +688,7 @@ fn gen_setup(g: &mut SplitMix64, parallel: bool, t: usize, s: usize, f: usize, n
         offs: (0..nrep).map(|_| g.dyadic(-2, 8, 4)).collect(),
         nscripts: (0..nrep.max(1)).map(|_| gen_nscript(g)).collect(),
         seed: g.next(),
+        always: false,
     }
 }
 
@@ -670,6 +715,31 @@ fn mode_temper(a: &Args) {
             }
         }
     }
+    // boundary of the swap period: s in {T-1, T, T+1, 2T}, sampling period dividing T, both drivers, with
+    // scripted decisions and with every exchange accepted (equal betas)
+    let tb: usize = if a.thorough { 48 } else { 24 };
+    let mut boundary = 0usize;
+    for t in 1..=tb {
+        for s in [t.saturating_sub(1), t, t + 1, 2 * t] {
+            if s == 0 {
+                continue;
+            }
+            for f in (1..=t).filter(|f| t % f == 0) {
+                for parallel in [false, true] {
+                    let nrep = 2 + (t + s + f) % 3;
+                    let mut su = gen_setup(&mut g, parallel, t, s, f, nrep);
+                    su.always = (t + f + parallel as usize) % 2 == 0 || s == t;
+                    if su.always {
+                        su.betas = vec![1.0; nrep];
+                    }
+                    run_temper(&su);
+                    boundary += 1;
+                    cnt += 1;
+                }
+            }
+        }
+    }
+    stat("temper_boundary_cases", boundary);
     // periods larger than T, zero replicas, many replicas
     let extra = if a.thorough { 1500 } else { 200 };
     for i in 0..extra {
@@ -786,10 +856,23 @@ fn mode_ising(a: &Args) {
         let s = g.range(1, 9) as usize;
         let f = g.range(1, 9) as usize;
         let parallel = ci % 2 == 1;
-        let ladder = ci % 3 != 0;
-        let h: f64 = if (ci / 2) % 2 == 1 { [-0.5, 0.25, -1.25, 0.75][(ci / 4) % 4] } else { 0.0 };
+        // every fifth pair of cases sits on the boundary of the swap period: s in {T-1, T, T+1, 2T}, sampling period
+        // dividing T, identical Hamiltonians and one common beta (every proposed exchange is accepted)
+        let boundary = (ci / 2) % 5 == 4;
+        let (s, f) = if boundary {
+            let sb = [t.saturating_sub(1).max(1), t, t, t + 1, 2 * t][(ci / 10) % 5];
+            let divs: Vec<usize> = (1..=t).filter(|d| t % d == 0).collect();
+            (sb, *g.pick(&divs))
+        } else {
+            (s, f)
+        };
+        let ladder = ci % 3 != 0 && !boundary;
+        let h: f64 = if (ci / 2) % 2 == 1 && !boundary { [-0.5, 0.25, -1.25, 0.75][(ci / 4) % 4] } else { 0.0 };
         // a beta ladder, or (every other ladder case) one common beta so that only the Hamiltonians differ
-        let common_beta = ladder && ci % 6 < 3;
+        let common_beta = (ladder && ci % 6 < 3) || boundary;
+        if boundary {
+            stat("ising_tempering_boundary_cases", 1);
+        }
         let mut tc: DefaultTemperingContainer<SplitMix64, SplitMix64> = TemperingContainer::new(SplitMix64::new(g.next()));
         let mut betas = vec![];
         let mut offs = vec![];
@@ -857,7 +940,10 @@ fn mode_ising(a: &Args) {
                 oracle = Err(format!("real replicas (h = {}): slot {}: get_offset() = {} at construction but sum|J| + N(Gamma+|h|) = {}", h, i, offs[i], docs[i]));
             }
             if tc.graph_ref()[i].0.state_ref() != tc2.graph_ref()[i].0.state_ref() {
-                oracle = Err(format!("real replicas: slot {} final state differs", i));
+                oracle = Err(format!("real replicas: slot {} final state differs from the lock-step reference", i));
+            }
+            if t % f == 0 && r[i].0.last().map(|x| &x[..]) != Some(tc.graph_ref()[i].0.state_ref()) {
+                oracle = Err(format!("real replicas: slot {}: the last sample is not the state the slot holds when the driver returns (T = {}, s = {}, f = {})", i, t, s, f));
             }
         }
         if tc.get_total_swaps() != tc2.get_total_swaps() {
